@@ -189,7 +189,7 @@ Section HandleEq.
       end.
   Proof.
     intros Hc. destruct (upload_code _ Hc) as [H1 [H2 [H3 _]]].
-    unfold handle_received. rewrite H1, H2, H3. reflexivity.
+    unfold handle_received, handle_received_s; fold_pr. rewrite H1, H2, H3. reflexivity.
   Qed.
 
   (* processReceivedMessage of a Block1 block, no reassembly state, M = 1: the state is created *)
@@ -204,7 +204,7 @@ Section HandleEq.
        Out (Some (contmsg (mtok r) (Z.min szx0 mx) (bnum b) true)), []).
   Proof.
     intros Hc Hb Hobs Het Hrx Hm. destruct (upload_code _ Hc) as [_ [H2 _]].
-    unfold process_received, observe_key, is_observe_response. rewrite H2, Hb, Hobs. cbn [negb].
+    unfold process_received, process_received_s, observe_key, is_observe_response. rewrite H2, Hb, Hobs. cbn [negb].
     rewrite Hrx, Hm. unfold reasm. rewrite Het. cbn [set_body mbody].
     change (blen (@nil Z)) with 0.
     destruct (bnum b * size (Z.min (bszx b) mx) =? 0); cbn [andb negb List.app]; reflexivity.
@@ -217,7 +217,7 @@ Section HandleEq.
     process_received app e r mx true = (e, Fail, []).
   Proof.
     intros Hc Hb Hobs Hrx Hm Hn. destruct (upload_code _ Hc) as [_ [H2 _]].
-    unfold process_received, observe_key, is_observe_response. rewrite H2, Hb, Hobs. cbn [negb].
+    unfold process_received, process_received_s, observe_key, is_observe_response. rewrite H2, Hb, Hobs. cbn [negb].
     rewrite Hrx, Hm. apply Z.eqb_neq in Hn. rewrite Hn. reflexivity.
   Qed.
 
@@ -236,7 +236,7 @@ Section HandleEq.
       else (e2, Out (Some (contmsg (mtok r) (Z.min (bszx b) mx) (bnum b) (bmore b))), []).
   Proof.
     intros Hc Hb Hobs Het Hrx Htk. destruct (upload_code _ Hc) as [_ [H2 _]].
-    unfold process_received, observe_key, is_observe_response. rewrite H2, Hb, Hobs. cbn [negb].
+    unfold process_received, process_received_s, observe_key, is_observe_response. rewrite H2, Hb, Hobs. cbn [negb].
     rewrite Hrx. unfold reasm. rewrite Het.
     destruct (bnum b * size (bszx b) =? blen (mbody cm)) eqn:Eapp.
     - destruct (bmore b); cbn [andb negb]; [reflexivity|].
@@ -249,7 +249,7 @@ Section HandleEq.
     (mcode r =? GET) || (mcode r =? DELETE) = false -> (if isb1 then mb1 r else mb2 r) = None -> mb2 r = None ->
     process_received app e r mx isb1 = (e, Out (app (mtok r) r), [r]).
   Proof.
-    intros H2 Hb Hb2. unfold process_received. rewrite H2, Hb, Hb2. rewrite andb_false_r. reflexivity.
+    intros H2 Hb Hb2. unfold process_received, process_received_s. rewrite H2, Hb, Hb2. rewrite andb_false_r. reflexivity.
   Qed.
 
   (* Handle of a 2.31 Continue at the sender of an upload: continueSendingMessage *)
@@ -770,7 +770,7 @@ Section Upload.
     assert (H2 : (mcode r =? GET) || (mcode r =? DELETE) = false) by (destruct Hc as [-> |[-> | ->]]; reflexivity).
     assert (H3 : is_upload (mcode r) = false) by (destruct Hc as [-> |[-> | ->]]; reflexivity).
     assert (H1 : (mcode r =? 0) || ((225 <=? mcode r) && (mcode r <=? 229)) = false) by (destruct Hc as [-> |[-> | ->]]; reflexivity).
-    unfold handle_received. rewrite H1, H2, H3.
+    unfold handle_received, handle_received_s; fold_pr. rewrite H1, H2, H3.
     rewrite process_plain by assumption. rewrite Hap. reflexivity.
   Qed.
 
